@@ -85,6 +85,17 @@ def judge(chk, c):
             _n, _h, dumped = p21fam.parse_dump(sc.read('d_%s.txt' % mode))
             states[mode] = dict((iid, st) for (iid, st, name, idx, sfid, txt) in dumped)
     for mode, (rc, sev, out) in res.items():
+        first_part = False
+        if c.where == 'complex part':
+            inst = c.pop.by_id()[c.k]
+            first_part = inst.parts[c.pi][0] == sorted(kw for kw, _v in inst.parts)[0]
+        if c.where == 'complex part' and not c.optional and first_part and not (mode == 'lenient' and c.kind in LENIENT_KINDS):
+            # the errors of the alphabetically first part DO reach the file-level result on the unchanged tree: judged like any
+            # other attribute (the other parts, and lenient substitution inside parts, are the open finding below)
+            if rc == 0 or sev is None or sev > SEV_INCOMPLETE:
+                found.append(('required accepted|%s|first part of a complex instance|%s' % (('OPTIONAL ' if c.optional else 'required ') + c.kind, mode),
+                              'missing required %s in the first part must make the read fail as incomplete in %s mode: exit %s, severity %s' % (c.kind, mode, rc, sev), files))
+            continue
         if c.where == 'complex part' and not c.optional:
             # open finding (same root cause as C03's): parts of a complex instance are always read strictly and their severity is dropped,
             # so a missing required attribute in a part is reported in neither mode - one key for the whole family
